@@ -228,11 +228,11 @@ pub fn c03_light<F: Fam>(ctx: &Ctx, sw: &Sweep, b: &[u8]) {
         match o {
             Out::Panic(m) => c03_report::<F>(ctx, b, entry, format!("panic: {m}")),
             Out::Stuck => c03_report::<F>(ctx, b, entry, "future pending on an always-ready transport".into()),
-            Out::Pkt(p) => {
-                if let Err(w) = F::walk(p) {
-                    c03_report::<F>(ctx, b, entry, format!("returned a packet violating a type invariant: {w}"));
-                }
-            }
+            Out::Pkt(p) => match guard(|| F::walk(p)) {
+                Ok(Ok(())) => {}
+                Ok(Err(w)) => c03_report::<F>(ctx, b, entry, format!("returned a packet violating a type invariant: {w}")),
+                Err(m) => c03_report::<F>(ctx, b, entry, format!("an accessor of the returned packet panics: {m} @ {}", last_panic_loc())),
+            },
             _ => {}
         }
     }
@@ -301,7 +301,7 @@ pub fn c03_heavy<F: Fam>(ctx: &Ctx, b: &[u8]) {
             Out::Panic(m) => c03_report::<F>(ctx, b, &format!("decode_async/{name}"), format!("panic: {m}")),
             Out::Stuck => c03_report::<F>(ctx, b, &format!("decode_async/{name}"), "does not terminate".into()),
             Out::Pkt(p) => {
-                if let Err(w) = F::walk(&p) {
+                if let Ok(Err(w)) = guard(|| F::walk(&p)) {
                     c03_report::<F>(ctx, b, &format!("decode_async/{name}"), format!("type invariant: {w}"));
                 }
             }
@@ -341,7 +341,7 @@ pub fn c03_sub<F: Fam>(ctx: &Ctx, b: &[u8], hd: u8) {
                 ctx.trace(results.len() as u64);
                 for (name, p) in results {
                     if let Some(p) = p {
-                        if let Err(w) = F::walk(&p) {
+                        if let Ok(Err(w)) = guard(|| F::walk(&p)) {
                             ctx.violation(
                                 format!("C03:{}:sub-decoder-invariant:{name}", F::NAME),
                                 format!("{name} on {} returned a value violating a type invariant: {w}", hex_short(b)),
